@@ -255,8 +255,15 @@ fn cell_walk<'tcx>(
                     cell_walk(tcx, fty, seen, out, depth + 1);
                 }
             }
-            // PhantomData / generic args not stored in fields are irrelevant
+            // containers keep their elements behind untyped pointers (Vec<T> -> RawVec -> *u8 +
+            // PhantomData<T>): the generic arguments are part of the stored state
+            for a in args.iter() {
+                if let Some(t) = a.as_type() {
+                    cell_walk(tcx, t, seen, out, depth + 1);
+                }
+            }
         }
+        ty::Pat(inner, _) => cell_walk(tcx, *inner, seen, out, depth + 1),
         ty::RawPtr(inner, _) => {
             out.push(format!("rawptr:{}", ty));
             cell_walk(tcx, *inner, seen, out, depth + 1);
